@@ -14,7 +14,7 @@ LEVEL_TEXT = ("Static structural proof of necessary conditions: (R7.1) every nor
               "computed from the single adjustment (1 + header) computed in validate; (R7.3) in the closure of "
               "SpreadsheetValidator.validate no possibly-None conversion result is used arithmetically or "
               "dereferenced unguarded. Equality with string-level validation and shuffle invariance are NOT decided.")
-LEVEL_EXTRA = "Added after the seeded evaluation: (R7.4) the column-structure checks see the caller's table, not the onset-sorted copy; (R7.5) the onset pass maps back to file rows through original_index; (R7.6) a row is excluded from the row-level and temporal checks only under an error-severity test. (R7.7) no issue list is discarded inside the table-validation modules; (R7.8) a column assigned during assembly carries the frame's own index; (R7.9) index labels are never used as positions (or vice versa) in the validators and df_util, and the per-row mask is computed over the file's own rows. (R7.10) float()/int() of table cell text only inside a ValueError handler. (R7.11) push_error_context replaces a context value only when it is None, never on a truth test. R7.11 also covers every loop over (context type, value) pairs of the reporter. (R7.12) a parameter is handed on to every repository callee that takes a parameter of the same name (11 frozen exceptions package-wide)."
+LEVEL_EXTRA = "Added after the seeded evaluation: (R7.4) the column-structure checks see the caller's table, not the onset-sorted copy; (R7.5) the onset pass maps back to file rows through original_index; (R7.6) a row is excluded from the row-level and temporal checks only under an error-severity test. (R7.7) no issue list is discarded inside the table-validation modules; (R7.8) a column assigned during assembly carries the frame's own index; (R7.9) index labels are never used as positions (or vice versa) in the validators and df_util, and the per-row mask is computed over the file's own rows. (R7.10) float()/int() of table cell text only inside a ValueError handler. (R7.11) push_error_context replaces a context value only when it is None, never on a truth test. R7.11 also covers every loop over (context type, value) pairs of the reporter. (R7.12) a parameter is handed on to every repository callee that takes a parameter of the same name (11 frozen exceptions package-wide). R7.8 also covers a default-index Series handed back by the assembly functions."
 
 FUNCS = ["validate", "_run_checks", "_run_onset_checks", "_validate_column_structure"]
 
@@ -187,6 +187,21 @@ def run(ctx):
                               "each value lands in the row whose *label* equals its *position* — annotations and row labels no longer "
                               "follow the rows%s" % (norm(st)[:60], norm(st.targets[0].value), why),
                               desc="%s: column assigned with the frame's index" % f.short)
+    # the same for a Series handed back: the callers (series_a, the validators) pair it with the frame's rows by label
+    for f in prog.functions.values():
+        if f.module.name not in ("hed.models.df_util", "hed.models.base_input", "hed.models.column_mapper"):
+            continue
+        for st in walk_no_nested(f.node):
+            if isinstance(st, ast.Return) and isinstance(st.value, ast.Call) and call_name(st.value) == "Series" \
+                    and not any(k.arg == "index" for k in st.value.keywords) and st.value.args \
+                    and not isinstance(st.value.args[0], (ast.Dict, ast.Name, ast.Attribute)) and len(st.value.args) < 2:
+                n_cols += 1
+                ctx.saw(f)
+                ctx.violation("R7.8", f.qualname, st, loc(f, st),
+                              "`%s` hands back a Series built with the default index 0..n-1 from the rows of a frame: for a frame whose "
+                              "index is not 0..n-1 in order (the validator sorts unordered files and keeps the labels) the values no longer "
+                              "carry the labels of their rows, so annotations attach to the wrong onsets and issues move to other rows"
+                              % norm(st)[:70])
     ctx.ok("R7.8", "%d default-index Series assigned into a frame column in the assembly modules (only the frozen exception)" % n_cols, "")
 
     # ---- R7.9: index labels and positions are not interchanged
